@@ -165,17 +165,21 @@ Section CKD.
       pose proof (derive_public_matches_private [c; i] k Hk ltac:(repeat constructor; assumption)) as H.
       unfold chain_address. cbn [C06.derive] in *.
       unfold C06.ckd at 1 in H. cbn [C06.neuter xk_kind] in H. fold (neuter k) in H.
-      destruct (ckd_pub (neuter k) c) as [ck|e] eqn:E1; cbn [bind] in *.
-      - unfold C06.ckd at 1 in H. rewrite (ckd_pub_kind _ _ _ E1) in H.
-        destruct (ckd_pub ck i) as [ci|e] eqn:E2; cbn [bind] in *.
-        + destruct (ckd k c) as [sc|]; cbn [bind res_map] in H; [|discriminate].
-          destruct (ckd sc i) as [si|]; cbn [bind res_map] in H; [|discriminate].
-          injection H as ->. reflexivity.
-        + destruct (ckd k c) as [sc|]; cbn [bind res_map] in H; [|discriminate].
-          destruct (ckd sc i) as [si|]; cbn [bind res_map] in H; [discriminate|].
-          injection H as ->. reflexivity.
-      - destruct (ckd k c) as [sc|]; cbn [bind res_map] in H.
-        + destruct (ckd sc i); cbn [bind res_map] in H; discriminate.
+      assert (Hstep : forall ck (r : res xkey), ckd_pub (neuter k) c = Ok ck ->
+                bind (ckd ck i) (fun c1 => Ok c1) = r ->
+                bind (ckd_pub ck i) (fun k0 => address hash160 dsha prefix (xk_key k0)) =
+                bind r (fun k0 => address hash160 dsha prefix (xk_key k0))).
+      { intros ck r E1 <-. unfold C06.ckd. rewrite (ckd_pub_kind _ _ _ E1).
+        destruct (ckd_pub ck i); reflexivity. }
+      destruct (ckd k c) as [sc|e1]; cbn [bind res_map] in *.
+      - destruct (ckd sc i) as [si|e2]; cbn [bind res_map] in *.
+        + destruct (ckd_pub (neuter k) c) as [ck|] eqn:E1; cbn [bind] in *; [|discriminate].
+          rewrite (Hstep ck _ eq_refl H). reflexivity.
+        + destruct (ckd_pub (neuter k) c) as [ck|] eqn:E1; cbn [bind] in *.
+          * rewrite (Hstep ck _ eq_refl H). reflexivity.
+          * injection H as ->. reflexivity.
+      - destruct (ckd_pub (neuter k) c) as [ck|] eqn:E1; cbn [bind] in *.
+        + rewrite (Hstep ck _ eq_refl H). reflexivity.
         + injection H as ->. reflexivity.
     Qed.
 
